@@ -82,6 +82,31 @@ func unlockBetween(fn *ssa.Function, a, b ssa.Instruction, lock string) ssa.Inst
 	return found
 }
 
+// paramOrigin: v is (a load of the cell holding) a by-value struct parameter of the enclosing function.
+func paramOrigin(v ssa.Value, depth int) *ssa.Parameter {
+	if v == nil || depth > 5 {
+		return nil
+	}
+	switch x := v.(type) {
+	case *ssa.Parameter:
+		if _, ok := x.Type().Underlying().(*types.Struct); ok {
+			return x
+		}
+	case *ssa.UnOp:
+		if al, ok := x.X.(*ssa.Alloc); ok {
+			// the parameter's spill cell: first store is the parameter itself (later field stores modify the copy)
+			for _, r := range *al.Referrers() {
+				if st, ok := r.(*ssa.Store); ok && st.Addr == al {
+					if p := paramOrigin(st.Val, depth+1); p != nil {
+						return p
+					}
+				}
+			}
+		}
+	}
+	return nil
+}
+
 // isGenEq: guard establishes equality of two generation values (a `.subGen` load against something).
 func isGenEq(g Guard) bool {
 	b, ok := g.Cond.(*ssa.BinOp)
@@ -497,6 +522,16 @@ func runC04(c *Ctx) {
 					d += fmt.Sprintf(" (value %s; guards %v)", dv, GuardStrings(mu))
 				}
 				c.Check("C04.R4", mu, "install of a new context dominated by a generation-equality test", okG, d)
+				// A context that is neither the entry loaded in this critical section nor built here is a
+				// copy somebody took earlier: only the commit of a subscribe attempt may install one (it
+				// replaces a reservation, which carries nothing worth keeping). Anywhere else the copy
+				// overwrites what refreshes, position updates and flag changes stored meanwhile.
+				if p := paramOrigin(mu.Value, 0); p != nil {
+					short := shortFuncName(fn)
+					installers := map[string]bool{"Client.commitSubscription": true}
+					c.Check("C04.R4", mu, "a context copy taken by the caller is installed only by the subscribe commit", installers[short],
+						"value "+dv+" comes from parameter "+p.Name()+": the live entry may have been refreshed (expireAt, info), re-positioned or re-flagged since that copy was taken; only a field update of the entry loaded under this lock keeps those")
+				}
 			}
 		}
 	}
